@@ -76,8 +76,15 @@ def replay_config(spec, printed, stats: Stats, out: list, desc):
     from prosemirror.model import Mark, Schema
     schema = Schema(spec)
 
-    def mk(m):
-        return schema.marks[m["t"]].create(json.loads(m["a"]))
+    def mk(m, shared=False):
+        """shared=True: when every attribute has its default value, take the mark the type hands out for `create()`
+        without attributes (types whose attributes all have defaults keep one shared instance) instead of building it
+        from explicit attributes - equal marks reached on different paths."""
+        mt = schema.marks[m["t"]]
+        attrs = json.loads(m["a"])
+        if shared and all(a.has_default and attrs.get(n) == a.default for n, a in mt.attrs.items()):
+            return mt.create()
+        return mt.create(attrs)
 
     def pj(ms):
         return [{"t": x.type.name, "a": schemas.canon(x.attrs)} for x in ms]
@@ -96,7 +103,7 @@ def replay_config(spec, printed, stats: Stats, out: list, desc):
         before = pj(cur)
         stats.case({"config": desc, "set": ev["set"]}, nontrivial=len(ev["set"]) > 0)
         for op in ev["ops"]:
-            m = mk(op["m"])
+            m = mk(op["m"], shared=True)
             stats.count("add_to_set")
             got = guard(lambda: pj(m.add_to_set(cur)))
             if got != op["add"]:
